@@ -16,7 +16,7 @@ def bad_dim_cases(g, per):
             # wrong destination
             lines = mats([("A", m, l), ("B", l, n), ("C", m + 1, n)]) + ["call %s - C A B%s" % (opn, extra), "dump A", "dump B", "dump C"]
             cases.append(g.case("bad-" + opn, lines, op=opn, bad="C dims"))
-            if opn not in ("mul_naive", "addmul_naive"):
+            if True:   # since fix F21 the cubic wrappers check the inner dimension as well
                 lines = mats([("A", m, l), ("B", l2, n), ("C", m, n)]) + ["call %s - C A B%s" % (opn, extra), "dump A", "dump B", "dump C"]
                 cases.append(g.case("bad-" + opn, lines, op=opn, bad="inner dims"))
         for opn in ("mul", "addmul"):
